@@ -195,6 +195,16 @@ def ts_spec(path):
                 d["domain"] = "utf8-strict"
             else:
                 d["domain"] = "utf8-replace"
+        elif (dm := re.search(r"([A-Za-z_$][A-Za-z0-9_$]*)\.decode\(", s)):
+            # a decoder held in a variable: resolve its construction at module or function level
+            ident = dm.group(1)
+            cm = re.search(r"(?:const|let|var)\s+" + re.escape(ident) + r"\s*=\s*new\s+TextDecoder\(([^;]*?)\)\s*;", src)
+            if not cm:
+                d["unrecognised"].append("decoder " + ident + " is not a resolvable TextDecoder")
+            elif re.search(r"fatal\s*:\s*true", cm.group(1)):
+                d["domain"] = "utf8-strict"
+            else:
+                d["domain"] = "utf8-replace"
         w = re.search(r"slice\(\s*0\s*,\s*Math\.min\(\s*(\d+)\s*,\s*value\.length\s*\)\s*\)", s) or \
             re.search(r"slice\(\s*0\s*,\s*Math\.min\(\s*value\.length\s*,\s*(\d+)\s*\)\s*\)", s) or \
             re.search(r"(?:slice|subarray)\(\s*0\s*,\s*(\d+)\s*\)", s)
@@ -203,7 +213,7 @@ def ts_spec(path):
         mk = re.search(r"includes\(\s*'([^']*)'\s*\)", s) or re.search(r'includes\(\s*"((?:[^"\\]|\\.)*)"\s*\)', s)
         if mk:
             d["marker"] = mk.group(1).replace('\\"', '"')
-        if not (mm or "TextDecoder" in s or w or mk or s.startswith("const ") or s.startswith("return ")):
+        if not (mm or "TextDecoder" in s or ".decode(" in s or w or mk or s.startswith("const ") or s.startswith("return ")):
             d["unrecognised"].append(s)
     return out
 
